@@ -37,6 +37,7 @@ InitSt == [hs |-> TRUE,            \* still in the opening handshake
            ioev |-> 0,             \* number of I/O-thread records so far
            deadat |-> <<>>,        \* handle -> value of ioev when the model dropped its queues
            proven |-> {},          \* handles that have themselves observed their queues gone
+           prepop |-> <<>>,        \* handle -> reply it had already taken off its queue (see TFrame)
            frame_max |-> 131072]
 
 Init == /\ TInit
@@ -252,6 +253,16 @@ Enrich(f) ==
     THEN f @@ [cname |-> ops[w.slots[f.ch].h].args.as]
     ELSE f
 
+\* A caller inside a synchronous call takes the reply at the head of its queue at a moment the
+\* trace does not show (somewhere between its `call` and `ret` records).  It matters only when the
+\* bounded(2) reply queue is full and the I/O thread queues one more: if the caller has already taken
+\* its reply there is room, otherwise the I/O thread fails with FrameUnexpected.  Both are real; the
+\* trace spec branches and later records decide.
+InFlight(h) ==
+    \/ (Has(ops, h) /\ ops[h].op \notin NowaitOps /\ ops[h].sends
+        /\ ops[h].op \notin {"open", "listen_blocked", "dropconn"})
+    \/ (Has(ops, "conn") /\ ops["conn"].op = "open" /\ ops["conn"].allocid >= 0 /\ ops["conn"].as = h)
+
 TFrame ==
     /\ IsEv("frame")
     /\ IF st.hs
@@ -259,12 +270,16 @@ TFrame ==
        ELSE LET e == Rec[l]
                 ok == w.srvq # <<>> /\ TypeNo(Head(w.srvq).type) = e.type /\ Head(w.srvq).ch = e.ch
                 f == Enrich(Head(w.srvq))
-                w2 == IF ok THEN Dispatch([w EXCEPT !.srvq = Tail(@)], f) ELSE w
-            IN /\ Step(<< <<"C06:dispatch-order", ok>>,
-                          <<"C05:no-dispatch-after-death", ~w.gone>> >>)
-               /\ w' = w2
-               /\ st' = IoStep(w, w2)
-               /\ UNCHANGED <<ops, seen>>
+                hT == IF ok /\ Has(w.slots, f.ch) THEN w.slots[f.ch].h ELSE ""
+                mayBranch == hT # "" /\ Len(w.hs[hT].repq) >= 2 /\ InFlight(hT) /\ ~Has(st.prepop, hT)
+            IN \E taken \in (IF mayBranch THEN {FALSE, TRUE} ELSE {FALSE}) :
+               LET w0 == IF taken THEN [w EXCEPT !.hs[hT].repq = Tail(@)] ELSE w
+                   w2 == IF ok THEN Dispatch([w0 EXCEPT !.srvq = Tail(@)], f) ELSE w
+               IN /\ Step(<< <<"C06:dispatch-order", ok>>,
+                             <<"C05:no-dispatch-after-death", ~w.gone>> >>)
+                  /\ w' = w2
+                  /\ st' = [IoStep(w, w2) EXCEPT !.prepop = IF taken THEN Put(@, hT, Head(w.hs[hT].repq)) ELSE @]
+                  /\ UNCHANGED <<ops, seen>>
 
 \* a client frame on the wire must be the oldest queued frame
 SameFrame(a, b) ==
@@ -369,9 +384,11 @@ TRet ==
            h0 == IF e.th = "conn" THEN "conn" ELSE e.h
            \* an open call continues on the freshly allocated handle
            h == IF op = "open" /\ c.allocid >= 0 THEN c.as ELSE h0
+           \* a reply the caller had already taken (TFrame) is put back in front for judging this return
+           wR == IF Has(st.prepop, h) /\ Has(w.hs, h) THEN [w EXCEPT !.hs[h].repq = <<st.prepop[h]>> \o @] ELSE w
            \* if the I/O thread's (unrecorded) exit is what explains this result, the handle may already
            \* have been dead when the call began
-           D0(x) == IF x = w THEN c.dead0 ELSE IF c.dead0 = "no" THEN "maybe" ELSE c.dead0
+           D0(x) == IF x = wR THEN c.dead0 ELSE IF c.dead0 = "no" THEN "maybe" ELSE c.dead0
            Judge(x) ==
              CASE op \in {"closeconn"} -> IF c.sends THEN CloseChecks(x, e, D0(x)) ELSE <<>>
                [] op \in {"dropconn", "droph", "dropc"} -> <<>>            \* Drop returns nothing
@@ -399,9 +416,9 @@ TRet ==
                [] op \in {"cancel"} /\ ~c.sends -> << <<"C11:cancel-idem", e.ok>> >>
                [] op \in {"close"} /\ ~c.sends -> <<>>
                [] OTHER -> IF Has(x.hs, h) /\ ~x.hs[h].unsure THEN SyncChecks(x, e, h, op, D0(x)) ELSE <<>>
-           x0 == w
-           x1 == Fire(w)
-           useFired == CanFire(w) /\ ~AllPass(Judge(x0))
+           x0 == wR
+           x1 == Fire(wR)
+           useFired == CanFire(wR) /\ ~AllPass(Judge(x0))
            x == IF useFired THEN x1 ELSE x0
            \* a reply is consumed by every call that waited for one, and by a failed nowait call
            pops == /\ Has(x.hs, h)
@@ -420,6 +437,7 @@ TRet ==
           /\ w' = IF pops /\ ~dropcase THEN PopReply(x2, h) ELSE x2
           /\ st' = [(IF useFired THEN DeadMark(w, x) ELSE st)
                     EXCEPT !.pendw = IF useFired THEN FALSE ELSE @,
+                           !.prepop = IF Has(@, h) THEN Del(@, h) ELSE @,
                            \* (an error received from the reply queue does not prove the request queue is gone
                            \* already: the I/O thread drops the slot a moment after queueing the error)
                            !.proven = @]
@@ -549,6 +567,18 @@ TIo ==
     /\ UNCHANGED <<ops, seen>>
     /\ Step(<<>>)
 
+\* heartbeat timers (sessions with a negotiated heartbeat): an expired rx timer is the death of the
+\* I/O thread (MissedServerHeartbeats) - e.g. when a heavily loaded machine starves the scripted server
+THb ==
+    /\ IsEv("hb")
+    /\ LET e == Rec[l]
+           dies == e.rx = 1 /\ e.expired = 1
+           w2 == IF dies THEN Fatal(w, "MissedServerHeartbeats") ELSE w
+       IN /\ w' = w2
+          /\ st' = IoStep(w, w2)
+    /\ UNCHANGED <<ops, seen>>
+    /\ Step(<<>>)
+
 TStreamDrop ==
     /\ IsEv("stream_drop")
     /\ LET x == Fire(w) IN
@@ -604,7 +634,7 @@ Next == IF Skipping THEN TSkip
         ELSE \/ TReset \/ TCall \/ TRet \/ TChanmsg \/ TAlloc \/ TSetBlocked
              \/ TS2c \/ TFrame \/ TC2s
              \/ TCmsg \/ TCdisc \/ TCopen \/ TLmsg \/ TLdisc \/ TLopen \/ TDropl
-             \/ TFault \/ TIo \/ TStreamDrop \/ THang \/ TPanic \/ TIoGone \/ TEnd \/ TOpened \/ TNoop
+             \/ TFault \/ TIo \/ THb \/ TStreamDrop \/ THang \/ TPanic \/ TIoGone \/ TEnd \/ TOpened \/ TNoop
 
 Spec == Init /\ [][Next]_vars
 =============================================================================
